@@ -991,6 +991,9 @@ func c18Run(ctx *Ctx, t *tape.Tape) *report.Violation {
 			// is distinct is the task set over the shared inputs
 			st.Distinct(fnv([]byte(strings.Join(describe(), "|"))))
 		}
+		if stt.Foreign > 0 {
+			st.Add("preemption_points_reached_on_goroutines_the_library_started_itself_(never parked)", int64(stt.Foreign))
+		}
 		if stt.Overlaps > 0 {
 			st.Distinct(stt.Hash)
 			st.Add("probe_preemption_with_two_tasks_inside_library", int64(stt.Overlaps))
@@ -1075,8 +1078,9 @@ func init() {
 					"tasks_run":         s.Counters["tasks"],
 					"task_kinds":        s.SortedCounters("taskkind_"),
 					"tasks_whose_solo_run_panicked_(harness health; the panic must then repeat under every schedule)": s.SortedCounters("taskpanic_"),
-					"policies":                        map[string]int64{"pct": s.Counters["policy_pct"], "chaos": s.Counters["policy_chaos"]},
-					"preemptions_by_package":          s.SortedCounters("preempt_in_"),
+					"policies":               map[string]int64{"pct": s.Counters["policy_pct"], "chaos": s.Counters["policy_chaos"]},
+					"preemptions_by_package": s.SortedCounters("preempt_in_"),
+					"preemption points reached on goroutines the library started itself (never parked; 0 = the library starts none)": s.Counters["preemption_points_reached_on_goroutines_the_library_started_itself_(never parked)"],
 					"yield_sites_in_the_copy":         sites,
 					"instrumentation_mode":            os.Getenv("IVGSIM_INSTRUMENTATION"),
 					"files_left_uninstrumented":       skipped,
